@@ -90,8 +90,8 @@ def gen(ctx):
             add('nat1 %s %s %s' % (S, A, ','.join(map(str, lat[A]))))
             alo, ahi = TYPES[A]
             avals = sorted({v for v in lat[A] if v >= 0} | {v for v in (smax - 1, smax, smax + 1, smax // 2, smax // 2 + 1) if alo <= v <= ahi} | ({-1, alo} if alo < 0 else set()))
-            if not ctx.thorough and len(avals) > 14:
-                keep = set(avals[:4] + avals[-4:]) | {v for v in avals if abs(v - smax) <= 1} | set(rnd.sample(avals, 4))
+            if not ctx.thorough and len(avals) > 10:
+                keep = set(avals[:3] + avals[-3:]) | {v for v in avals if abs(v - smax) <= 1} | set(rnd.sample(avals, 2))
                 avals = sorted(keep)
             for B in ORDER:
                 blo, bhi = TYPES[B]
